@@ -978,3 +978,23 @@ Proof.
   split; [reflexivity|]. unfold st. cbn [ps_segment_size ps_kmer_length ps_min_match_len].
   destruct (params_fields pdata) as [[a b] c]. reflexivity.
 Qed.
+
+(* ------------------------------------------------------------------ the clamp is exact: `for i in 0..no_samples` *)
+Lemma dec_names_beyond n : forall m i ptr, (length ptr < n)%nat -> (length ptr < m)%nat ->
+  dec_names n i ptr = dec_names m i ptr.
+Proof.
+  induction n as [|n IH]; intros m i ptr Hn Hm; [lia|]. destruct m as [|m]; [lia|].
+  cbn [dec_names]. destruct (dec_cbytes ptr) as [[s r]| |] eqn:E; try reflexivity.
+  apply dec_cbytes_len in E. destruct (utf8_valid s); [|reflexivity].
+  assert (L : (length r < length ptr)%nat) by (unfold lenN in E; lia).
+  rewrite (IH m (i + 1) r) by lia. reflexivity.
+Qed.
+
+Theorem open2_loop_is_count_loop_proof : forall pf v count ptr, cv_decode_p pf v = Ok (count, ptr) ->
+  deser_sample_names_p pf v = dec_names (N.to_nat count) 0 ptr.
+Proof.
+  intros pf v count ptr H. unfold deser_sample_names_p. rewrite H. unfold clamp.
+  destruct (count <=? lenN ptr + 1) eqn:E.
+  - rewrite N.min_l by lia. reflexivity.
+  - rewrite N.min_r by lia. apply dec_names_beyond; unfold lenN in *; lia.
+Qed.
